@@ -58,6 +58,40 @@ class Unit:
         return "" if cfg is None else str(cfg)
 
 
+class BoundedUnit(Unit):
+    """Bounded stand-in: the real function is run natively over a stated small scope and compared
+    with a spec oracle. Never counted as proved."""
+    bounded = True
+    use_at_call_sites = False
+    bound = "unstated"
+
+    def cases(self, cfg, tier):
+        """yield (description, thunk) where thunk() returns None if ok else a failure description"""
+        raise NotImplementedError
+
+    def run_bounded(self, cfg, tier):
+        n = 0
+        bad = []
+        for desc, thunk in self.cases(cfg, tier):
+            n += 1
+            try:
+                r = thunk()
+            except Exception:
+                r = "raised " + traceback.format_exc()[-400:]
+            if r:
+                bad.append({"obligation": self.unit_name(), "case": desc, "failure": r})
+                if len(bad) >= 3:
+                    break
+        return {"cases": n, "bound": self.bound, "bounded_violations": bad}
+
+    def replay_bounded(self, detail):
+        for desc, thunk in self.cases(None, "thorough"):
+            if desc == detail.get("case"):
+                r = thunk()
+                return {"reproduced": bool(r), "detail": r or "ok"}
+        return {"reproduced": False, "detail": "case not found"}
+
+
 class Lemma(Unit):
     """A proof obligation with no code (spec-level lemma)."""
     use_at_call_sites = False
